@@ -52,6 +52,9 @@ pub struct Chain {
     /// Serialize block appends to prevent TOCTOU race conditions.
     append_lock: Mutex<()>,
 
+    /// Serialize workspace commits from store pre-image to block append.
+    pub(crate) commit_lock: Mutex<()>,
+
     /// Optional validator registry for signature verification.
     validator_registry: Option<Arc<ValidatorRegistry>>,
 }
@@ -64,6 +67,7 @@ impl Chain {
             tip_hash: RwLock::new([0u8; 32]),
             node_id,
             append_lock: Mutex::new(()),
+            commit_lock: Mutex::new(()),
             validator_registry: None,
         }
     }
@@ -80,6 +84,7 @@ impl Chain {
             tip_hash: RwLock::new([0u8; 32]),
             node_id,
             append_lock: Mutex::new(()),
+            commit_lock: Mutex::new(()),
             validator_registry: Some(registry),
         }
     }
